@@ -72,6 +72,32 @@ Theorem C11_build_fail_untouched : forall exts out out_exists sources writes (ch
 Proof. exact build_fail_exec. Qed.
 Print Assumptions C11_build_fail_untouched.
 
+(* The stronger monitor: if [quiet] accepts a trace (of a whole command, possibly writing several carts),
+   then from the moment any encoder starts (OpenTemp) until it is done, NO path of the file system changes -
+   for every prefix, whatever happened before. *)
+Theorem C11_quiet_sound : forall (tr : list (op bytes)), quiet tr = true ->
+  forall fs a h b r, tr = a ++ OpenTemp h :: b ++ r -> encoder_done b = false ->
+  forall p, exec fs (a ++ OpenTemp h :: b) p = exec fs a p.
+Proof. exact quiet_sound. Qed.
+Print Assumptions C11_quiet_sound.
+
+(* the models are quiet: to_file; process_game_files over a whole argument list (the fault index counts the
+   writes of the whole command; an exception ends the command); build *)
+Theorem C11_model_quiet : forall fmt dest ex lbl (chunks : list bytes) fail,
+  quiet (to_file_trace (@concat Z) fmt dest ex lbl chunks fail) = true.
+Proof. exact (@to_file_quiet bytes (@concat Z)). Qed.
+Print Assumptions C11_model_quiet.
+
+Theorem C11_cli_many_quiet : forall exts overwrite (files : list (cart_in (D:=bytes))) fail,
+  quiet (process_many_trace (@concat Z) exts overwrite files fail) = true.
+Proof. exact (@process_many_quiet bytes (@concat Z)). Qed.
+Print Assumptions C11_cli_many_quiet.
+
+Theorem C11_build_quiet : forall exts out oex sources writes (chunks : list bytes) fail,
+  quiet (build_trace (@concat Z) exts out oex sources writes chunks fail) = true.
+Proof. exact (@build_quiet bytes (@concat Z)). Qed.
+Print Assumptions C11_build_quiet.
+
 (* Limit, stated rather than hidden: the final copy is not atomic.  After the encoder has returned,
    between open(filename,'wb+') and the end of finalfh.write the destination is truncated; a failure
    of that last write (disk full) is not a failure of "producing the cart" in the property's sense. *)
@@ -94,6 +120,10 @@ Example C11_direct_write_rejected :
   holds_C11 "a.p8"%bs [OpenWrite ("a.p8"%bs : bytes) 1; Write 1 42; Close 1; Raise] false = false
   /\ safe ("a.p8"%bs : bytes) [OpenWrite ("a.p8"%bs : bytes) 1; Write 1 42; Close 1; Raise (D:=Z)] = false.
 Proof. split; vm_compute; reflexivity. Qed.
+
+Example C11_quiet_rejects_direct_write :
+  holds_C11_quiet [OpenTemp 1; Write 1 5; OpenWrite ("b.p8"%bs : bytes) 2; Write 1 5; EncoderDone] = false.
+Proof. vm_compute. reflexivity. Qed.
 
 Example C11_ok_trace_accepted :
   holds_C11 "a.p8"%bs (to_file_trace_now "a.p8"%bs true None [8; 25] None) false = true.
